@@ -5,7 +5,8 @@ import MsqProofs.Props.C09
 
 Built on the generated relational family `MsqProofs/Lemmas/ParseCase*.lean` (`tools/gen_case.py`): for EVERY function `f` of the parser
 model (the 80 functions of the mutual block of `Parse/Expr.lean`, the 19 cursor primitives / helpers, the 57 functions of
-`Parse/Stmt.lean` and `pStatements`, `pSubValue` of `Parse/Entry.lean`) a lemma `f_ce : args ~ args' → f args ≈ f args'`.
+`Parse/Stmt.lean` and `pStatements`, `pSubValue` of `Parse/Entry.lean`: 158 in all; three fuel steps — `pSplit`, `pSelectStmt`, `pUnions` — by hand
+in `Lemmas/ParseCase7.lean`) a lemma `f_ce : args ~ args' → f args ≈ f args'`.
 
 * `PM.CE t t'` / `PM.CEL ts ts'` (`Lemmas/ParseCase1.lean`): the two tokens (token lists) differ at most in the LETTER CASE OF WORDS — same
   shape, same marks, and a leaf is literally the same or both leaves are case words (`caseWord`: ASCII letters, digits, `_`, at least one
@@ -29,9 +30,9 @@ stores a keyword) and is NOT proved in general.  What is known:
 * literal equality holds on the T-query fragment for the ONE spelling the printer emits (`C03.tquery`) and for the operator / noise-word
   spellings of `C09.tquery_spellings`; the letter case of the keyword tokens of `toksQ` is not among the spelling choices there;
 * words that ARE stored with their letter case although a reader would call them keywords (each checked on the real code, see the
-  `#guard`s at the end and the final report): the literal words `NULL` / `TRUE` / `FALSE`, function names (`COUNT`, `CAST` type names are
-  normalised, function names are not), `USING` of a join (F-C09-2: parsed as a function call), `CURRENT_DATE` (a column name),
-  option values of CREATE TABLE (`ENGINE = innodb`), `CHARACTER SET` / `COLLATE` names;
+  `#guard`s at the end and the final report): the literal words `NULL` / `TRUE` / `FALSE`, function names (`COUNT`; the type of a CAST is
+  normalised to the enum member, function names are not), `USING` of a join (F-C09-2: parsed as a function call), `CURRENT_DATE` (a
+  column name), column type names of CREATE TABLE (`a int` / `a INT`), option values (`ENGINE = innodb`), `CHARACTER SET` / `COLLATE` names;
 * `same_upAll_same_tree`: if neither tree stores a lower-case letter (`upAll` fixes both) the trees are EQUAL.
 
 ## Case-SENSITIVE comparisons with a literal that contains letters
